@@ -221,7 +221,7 @@ inductive BlockDiag
 /-- `_extract_py_new_syntax`: (code lines, lines consumed) -/
 def pyNewGo : List (List Char) → List (List Char) → Option (List (List Char) × Nat)
   | [], _ => none
-  | l :: ls, acc => if stripL l == "@endpy".toList then some (acc.reverse, acc.length + 2) else pyNewGo ls (l :: acc)
+  | l :: ls, acc => if stripL l == "@endpy".toList then some (dedent acc.reverse, acc.length + 2) else pyNewGo ls (l :: acc)
 
 def pyNew (lines : List (List Char)) (start : Nat) : PyM (Except BlockDiag (List (List Char) × Nat)) := do
   let l0 ← (match lines[start]? with | some l => pure l | none => .error .indexError)
